@@ -1,6 +1,7 @@
 import KpModel.Props.C04
 import KpModel.Format.Legacy
 import KpModel.Codec.Time
+import KpModel.Xml.Total
 /-!
 # C06 — reading never panics, aborts or hangs on arbitrary input (KDBX4 container)
 Property theorems only, over the faithful model of `decrypt_kdbx4` in which every Rust expression that can
@@ -514,3 +515,13 @@ theorem C06_timestamp_total (t : String) (s : String) : Kp.Codec.parseTimestamp 
           · simp only [h3, ↓reduceIte] at h; cases h
 
 end Kp.Fmt
+
+namespace Kp.Xml
+
+/-- **C06_xml_total**: the XML object-model reader (`xml_db::parse`: `KeePassFile`, `Meta`, groups, entries with nested
+    histories, values, times, custom data, …) never panics — for every event stream the tokenizer can deliver (error events
+    included), every inner key stream and every decompressor -/
+theorem C06_xml_total (env : Env) (evs : List Ev) (site : String) : parseContent env evs ≠ .panic site :=
+  parseContent_no_panic env evs site
+
+end Kp.Xml
